@@ -318,6 +318,22 @@ pub fn run(ctx: &mut Ctx) {
                 pool.push(base);
             }
             let mut ops: Vec<Op> = Vec::with_capacity(nops);
+            let mut ids = ids;
+            if i % 12 == 5 {
+                // bulk history: thousands of distinct tiles first, so that save+reopen goes through leaf directories
+                let bulk = rng.usize(4100, 9500);
+                let mut id = 5_000_000u64;
+                for j in 0..bulk {
+                    ops.push(Op::Add(id, j % pool.len()));
+                    if j % 97 == 0 {
+                        ids.push(id);
+                    }
+                    id += 1 + rng.log_range(1, 1 << 20);
+                }
+                ids.push(id - 1); // the highest id of the bulk
+                ops.push(Op::Reopen(i % 24 == 5, R::C_NONE));
+                ops.push(Op::Reopen(i % 24 != 5, R::CODECS[(i % 4) as usize]));
+            }
             for j in 0..nops {
                 let r = rng.below(100);
                 if j % 50 == 49 {
@@ -329,6 +345,11 @@ pub fn run(ctx: &mut Ctx) {
                 }
             }
             let mut universe: Vec<u64> = ids.clone();
+            for op in ops.iter().rev().take(4000).step_by(131) {
+                if let Op::Add(id, _) = op {
+                    universe.push(*id);
+                }
+            }
             universe.extend([dom - 1, dom, u64::MAX, 999_999_999]);
             universe.sort_unstable();
             universe.dedup();
